@@ -120,7 +120,7 @@ Section Pointwise.
     destruct r as [[[c' s] e] v]. unfold glob, on_chrom, count_at in *. cbn [map filter].
     rewrite Hcov. injection IH' as IH'. destruct (Z.eqb_spec c' c) as [E|E]; cbn [andb].
     - cbn [map filter]. destruct (covers p (s, e, v)); [|rewrite IH'; reflexivity].
-      rewrite !len_cons, IH'. reflexivity.
+      cbn [map]. rewrite !sumZ_cons, IH'. reflexivity.
     - rewrite IH'. reflexivity.
   Qed.
 End Pointwise.
